@@ -37,7 +37,7 @@ ENUM_VALUE_WORDS = ["None", "Ok", "Fail", "Male", "Female", "Up", "Down", "Left"
 # class names that collide with names the generated modules import or with public classes of the library
 FORBIDDEN_TYPE_NAMES = {
     "Optional", "Union", "Iterable", "EoWriter", "EoReader", "SerializationError", "IntEnum", "Packet",
-    "ProtocolEnumMeta", "PacketFamily", "PacketAction", "None", "True", "False", "Cast", "Annotations", "Type",
+    "ProtocolEnumMeta", "PacketFamily", "PacketAction", "None", "True", "False", "Cast", "Annotations",
     "Generated", "SequenceStart", "PacketSequencer", "AccountReplySequenceStart", "InitSequenceStart", "PingSequenceStart",
 }
 # type names whose MODULE name equals a documented package, module or function of the library (legal: only the
@@ -49,7 +49,9 @@ COLLISION_NAMES = ["Data", "Encrypt", "Protocol", "Net", "Map", "Pub", "Client",
                    "ABC", "EnumMeta", "Random",
                    # names a future generated module might import from typing / collections.abc / the library
                    "Sequence", "Mapping", "List", "Dict", "Any", "Callable", "Tuple", "Set", "Final", "Literal", "Enum",
-                   "Path", "Bytes", "Str", "Int", "Bool", "Object", "Self", "Writer", "Reader"]
+                   "Path", "Bytes", "Str", "Int", "Bool", "Object", "Self", "Writer", "Reader",
+                   # soft keywords and builtins as module names (match.py, case.py, print.py ...)
+                   "Match", "Case", "Type", "Print", "Len", "Id", "Input", "Open", "Property", "Super", "Async0"]
 FILESYSTEM_COLLISIONS = {"": {"map", "net", "pub"}, "net": {"client", "server"}, "pub": {"server"}}
 FAMILIES = ["Connection", "Account", "Character", "Login", "Welcome", "Walk", "Face", "Chair", "Emote", "Attack",
             "Spell", "Shop", "Item", "StatSkill", "Global", "Talk", "Warp", "Jukebox", "Players", "Avatar", "Party",
